@@ -336,13 +336,14 @@ def _keyfaithful(ck: Checker) -> None:
             for d in defs:
                 dv = getattr(d.ast, "value", None)
                 if isinstance(dv, ast.Call) and call_name(dv) == "HashInfo":
-                    ck.require(norm(dv.args[0]) == "name" and flows_from_calls(g2, d, dv.args[1], inner), "C01.keyfaithful", hfile, d, "fresh HashInfo(name, oid) carries the oid just computed", f"fresh hash info is {norm(dv)}")
+                    ck.require(get_arg(dv, None, "name", 0) is not None and get_arg(dv, None, "value", 1) is not None and norm(get_arg(dv, None, "name", 0)) == "name" and flows_from_calls(g2, d, get_arg(dv, None, "value", 1), inner), "C01.keyfaithful", hfile, d, "fresh HashInfo(name, oid) carries the oid just computed", f"fresh hash info is {norm(dv)}")
     h2 = prog.func("hashfile.hash", "_hash_file")
     fm = [c for c in walk_own(h2.node) if isinstance(c, ast.Call) and call_name(c) == "file_md5"]
-    ck.require(bool(fm) and all(norm(c.args[0]) == "path" and any(k.arg == "name" and norm(k.value) == "name" for k in c.keywords) for c in fm), "C01.keyfaithful", h2, h2.node, "_hash_file digests its own path", "_hash_file does not digest (path, name=name)")
+    fmd = prog.func("hashfile.hash", "file_md5")
+    ck.require(bool(fm) and all(get_arg(c, fmd, fmd.pos_params[0]) is not None and norm(get_arg(c, fmd, fmd.pos_params[0])) == "path" and get_arg(c, fmd, "name") is not None and norm(get_arg(c, fmd, "name")) == "name" for c in fm), "C01.keyfaithful", h2, h2.node, "_hash_file digests its own path", "_hash_file does not digest (path, name=name)")
     f3 = prog.func("hashfile.hash", "file_md5")
     op = [c for c in walk_own(f3.node) if isinstance(c, ast.Call) and is_method_call(c, "open")]
-    ck.require(bool(op) and all(norm(c.args[0]) == f3.pos_params[0] for c in op), "C01.keyfaithful", f3, f3.node, "file_md5 opens the file it was given", "file_md5 opens a different path")
+    ck.require(bool(op) and all(get_arg(c, None, "path", 0) is not None and norm(get_arg(c, None, "path", 0)) == f3.pos_params[0] for c in op), "C01.keyfaithful", f3, f3.node, "file_md5 opens the file it was given", "file_md5 opens a different path")
 
 
 def _unordered(ck: Checker) -> None:
